@@ -21,6 +21,12 @@ thread_local! {
 
     // If nonzero, parsing panics once `PARSE_CALLS` exceeds this cap.
     static PARSE_CALLS_CAP: Cell<u64> = const { Cell::new(0) };
+
+    // Number of invocations of the definition-order check on a single definition.
+    static ORDER_CHECK_CALLS: Cell<u64> = const { Cell::new(0) };
+
+    // If nonzero, the definition-order check panics once `ORDER_CHECK_CALLS` exceeds this cap.
+    static ORDER_CHECK_CALLS_CAP: Cell<u64> = const { Cell::new(0) };
 }
 
 // A snapshot of all the counters.
@@ -30,6 +36,7 @@ pub struct Counters {
     pub shift_unresolved_below_cutoff: u64,
     pub shift_unresolved_refused: u64,
     pub parse_calls: u64,
+    pub order_check_calls: u64,
 }
 
 pub fn open_unresolved() {
@@ -57,6 +64,19 @@ pub fn parse_call() {
     );
 }
 
+pub fn order_check_call() {
+    let calls = ORDER_CHECK_CALLS.with(|counter| {
+        counter.set(counter.get() + 1);
+        counter.get()
+    });
+
+    let cap = ORDER_CHECK_CALLS_CAP.with(Cell::get);
+    assert!(
+        cap == 0 || calls <= cap,
+        "verif: definition-order check call cap of {cap} exceeded",
+    );
+}
+
 // Read all the counters.
 pub fn snapshot() -> Counters {
     Counters {
@@ -64,6 +84,7 @@ pub fn snapshot() -> Counters {
         shift_unresolved_below_cutoff: SHIFT_UNRESOLVED_BELOW_CUTOFF.with(Cell::get),
         shift_unresolved_refused: SHIFT_UNRESOLVED_REFUSED.with(Cell::get),
         parse_calls: PARSE_CALLS.with(Cell::get),
+        order_check_calls: ORDER_CHECK_CALLS.with(Cell::get),
     }
 }
 
@@ -73,9 +94,15 @@ pub fn reset() {
     SHIFT_UNRESOLVED_BELOW_CUTOFF.with(|counter| counter.set(0));
     SHIFT_UNRESOLVED_REFUSED.with(|counter| counter.set(0));
     PARSE_CALLS.with(|counter| counter.set(0));
+    ORDER_CHECK_CALLS.with(|counter| counter.set(0));
 }
 
 // Set the cap on parsing function invocations (0 disables the cap).
 pub fn set_parse_calls_cap(cap: u64) {
     PARSE_CALLS_CAP.with(|counter| counter.set(cap));
+}
+
+// Set the cap on definition-order check invocations (0 disables the cap).
+pub fn set_order_check_calls_cap(cap: u64) {
+    ORDER_CHECK_CALLS_CAP.with(|counter| counter.set(cap));
 }
